@@ -249,6 +249,10 @@ def check(tier, seed):
     return v.finish('proof')
 
 
+def setup():
+    M.build_macroprobe()
+
+
 def replay(r):
     M.build_macroprobe()
     kind, case = r.get('kind'), r.get('case')
